@@ -55,6 +55,9 @@ pub enum Bad {
     SelectUnknown(u16, u8),
     StreamBadName(u8, u8),
     StreamMissing(u8),
+    /// drop_table on a name that is not a table although `_Validation` still
+    /// holds rows for it (validation templates ship such rows)
+    DropGhost(u8),
 }
 
 #[derive(Clone, Debug, Serialize, Deserialize, Hash, PartialEq, Eq)]
@@ -177,6 +180,7 @@ fn perform(run: &mut Run, bad: &Bad) -> Option<(String, std::io::Result<()>)> {
             let n = ["NoSuchTable", "_Tables", "_Columns", "_Validation", "", "9x"][(*k % 6) as usize];
             Some((format!("drop_table({n:?})"), run.pkg().drop_table(n)))
         }
+        Bad::DropGhost(_) => Some(("drop_table(\"Ghost\"), which is no table but has _Validation rows".into(), run.pkg().drop_table("Ghost"))),
         Bad::InsertUnknownTable => Some(("insert(unknown table)".into(), run.pkg().insert_rows(Insert::into("NoSuchTable").row(vec![Value::Int(1)])))),
         Bad::InsertArity(sel, n) => {
             let t = table_at(*sel)?;
@@ -374,6 +378,20 @@ pub fn check_case(case: &Case, st: &mut Stats) -> Check {
         }
         run.trace.push("create_table(EmptyKey); insert(EmptyKey, ['' | null, 'first label'], ['beta', 'second label'])".into());
     }
+    if let Bad::DropGhost(k) = &case.bad {
+        let row = |col: &str| -> Vec<Value> {
+            vec![Value::from("Ghost"), Value::from(col), Value::from("N"), Value::Null, Value::Null, Value::Null, Value::Null, Value::from("Identifier"), Value::Null, Value::from("left over")]
+        };
+        let mut q = Insert::into("_Validation").row(row("Id"));
+        if k % 2 == 1 {
+            q = q.row(row("Name"));
+        }
+        if run.pkg().insert_rows(q).is_err() {
+            st.class("not-applicable");
+            return Ok(());
+        }
+        run.trace.push("insert(_Validation, rows describing columns of a table Ghost that does not exist)".into());
+    }
     let trace = run.trace_text();
     run.pkg().flush().map_err(|e| Fail::new(format!("{P} unexpected-error op=Flush"), format!("{e}; history: {trace}")))?;
     let bytes0 = run.buf.contents();
@@ -458,6 +476,7 @@ fn bad_strategy() -> impl Strategy<Value = Bad> {
         2 => (any::<u16>(), any::<u8>()).prop_map(|(a, b)| Bad::SelectUnknown(a, b)),
         3 => (any::<u8>(), any::<u8>()).prop_map(|(a, b)| Bad::StreamBadName(a, b)),
         1 => any::<u8>().prop_map(Bad::StreamMissing),
+        2 => any::<u8>().prop_map(Bad::DropGhost),
     ]
 }
 
